@@ -5,7 +5,7 @@
    No Extract Constant / Extract Inductive of our own. Run from the output directory:
      cd /verif/.build/oracle && coqc -Q /verif/coq LE /verif/coq/Extract.v *)
 From Coq Require Import Extraction ExtrOcamlBasic.
-From LE Require Import Base Strs Config Err ConfigSpec ErrSpec GenConfig GenErrors Retry RetrySpec Store GenBackoff Ev World Mon Proto Run Env EnvT.
+From LE Require Import Base Strs Config Err ConfigSpec ErrSpec GenConfig GenErrors Retry RetrySpec Store GenBackoff Ev World Mon Proto Causes Run Env EnvT.
 
 Extraction Language OCaml.
 Extraction "extracted.ml"
@@ -13,4 +13,4 @@ Extraction "extracted.ml"
   msg is_permanent is_transient class_ok required_class nats_situation_permanent
   sstep srun empty_store
   backoff_withinb cb_spec_step retry_loop calculate_backoff cb_call default_backoff round_jitterMin round_jitterMax round_maxRetries
-  kind_names decode check_trace check_guards check_env check_envT check_envC.
+  kind_names decode check_trace check_guards check_guards2 check_env check_envT check_envC.
